@@ -39,6 +39,10 @@ mod verif_kani_tokrollback {
         fn token_len(&self, t: TokenId) -> usize {
             self.lens[t as usize]
         }
+        /// "\xFF[id]": five bytes for the two-digit ids of this shim (only the length is used by rollback)
+        fn decode_as_special(&self, _t: TokenId) -> Vec<u8> {
+            vec![0xff, b'[', b'0', b'0', b']']
+        }
     }
     /// stands for Parser: records the rollback request; may fail (parser error state)
     struct ShimParser {
@@ -78,6 +82,7 @@ mod verif_kani_tokrollback {
         max_tokens_total: usize,
         llm_tokens: Vec<TokenId>,
         eos_without_bytes: Vec<usize>,
+        forced_by_id: Vec<usize>,
         llm_bytes: Vec<u8>,
         is_fresh: bool,
         had_rollback: bool,
@@ -163,6 +168,11 @@ mod verif_kani_tokrollback {
         let mut toks = Vec::with_capacity(NTOK);
         let mut contrib = [0usize; NTOK];
         let mut zero_idx = Vec::with_capacity(NTOK);
+        let mut forced_idx = Vec::with_capacity(NTOK);
+        // bytes each token occupies in the parser: its own, or the 5-byte "\xFF[id]" spelling when it was matched by id
+        let mut pcontrib = [0usize; NTOK];
+        let mut forced_flag = [false; NTOK];
+        let mut ptotal = 0usize;
         let mut total = 0usize;
         let mut i = 0;
         while i < NTOK {
@@ -177,14 +187,22 @@ mod verif_kani_tokrollback {
                 contrib[i] = 0;
             } else {
                 contrib[i] = lens[t as usize];
+                if kani::any() {
+                    forced_idx.push(i);
+                    forced_flag[i] = true;
+                    pcontrib[i] = 5;
+                } else {
+                    pcontrib[i] = contrib[i];
+                }
             }
             total += contrib[i];
+            ptotal += pcontrib[i];
             i += 1;
         }
         let extra_parser_bytes: usize = 0;
         let mut tp = ShimTP {
             trie: ShimTrie { lens },
-            parser: ShimParser { nbytes: total + extra_parser_bytes, fail: kani::any(), calls: 0, last_arg: 0, eos_scanned: 0 },
+            parser: ShimParser { nbytes: ptotal + extra_parser_bytes, fail: kani::any(), calls: 0, last_arg: 0, eos_scanned: 0 },
             is_accepting_cache: if kani::any() { Some(kani::any()) } else { None },
             ff_tokens_cache: if kani::any() { Some((Vec::new(), Vec::new())) } else { None },
             stop_reason: any_stop_reason(),
@@ -192,6 +210,7 @@ mod verif_kani_tokrollback {
             max_tokens_total: kani::any(),
             llm_tokens: toks,
             eos_without_bytes: zero_idx,
+            forced_by_id: forced_idx,
             llm_bytes: bytes_of_len::<NTOK>(total),
             is_fresh: kani::any(),
             had_rollback: false,
@@ -222,14 +241,17 @@ mod verif_kani_tokrollback {
             let new_len = NTOK - n;
             // bytes dropped = exactly what the dropped tokens contributed
             let mut want = 0usize;
+            let mut pwant = 0usize;
             let mut j = new_len;
             while j < NTOK {
                 want += contrib[j];
+                pwant += pcontrib[j];
                 j += 1;
             }
-            assert!(tp.parser.calls == 1 && tp.parser.last_arg == want);
+            // the parser is asked to drop what the tokens occupy in it, llm_bytes loses what they contributed to it
+            assert!(tp.parser.calls == 1 && tp.parser.last_arg == pwant);
             assert!(tp.llm_bytes.len() == total - want);
-            assert!(tp.parser.nbytes == total - want); // parser and token layer agree on the byte length
+            assert!(tp.parser.nbytes == ptotal - pwant);
             assert!(tp.llm_tokens.len() == new_len);
             let k: usize = kani::any();
             kani::assume(k < NTOK);
@@ -237,8 +259,10 @@ mod verif_kani_tokrollback {
                 assert!(tp.llm_tokens[k] == old_tokens[k]);
                 // the zero-byte record of kept tokens is unchanged
                 assert!(tp.eos_without_bytes.contains(&k) == (contrib[k] == 0));
+                assert!(tp.forced_by_id.contains(&k) == forced_flag[k]);
             } else {
                 assert!(!tp.eos_without_bytes.contains(&k));
+                assert!(!tp.forced_by_id.contains(&k));
             }
             assert!(tp.is_accepting_cache.is_none() && tp.ff_tokens_cache.is_none());
             assert!(tp.stop_reason == StopReason::NotStopped); // a normal stop is undone
@@ -288,6 +312,7 @@ mod verif_kani_tokrollback {
             max_tokens_total: kani::any(),
             llm_tokens: Vec::with_capacity(2),
             eos_without_bytes: Vec::with_capacity(2),
+            forced_by_id: Vec::new(),
             llm_bytes: Vec::with_capacity(8),
             is_fresh: false,
             had_rollback: false,
@@ -342,6 +367,7 @@ mod verif_kani_tokrollback {
             max_tokens_total: 10,
             llm_tokens: vec![1, 2],
             eos_without_bytes: Vec::new(),
+            forced_by_id: Vec::new(),
             llm_bytes: vec![0, 0],
             is_fresh: false,
             had_rollback: false,
